@@ -52,6 +52,11 @@ func (f *GitFilter) SmudgeToFile(filename string, ptr *Pointer, download bool, m
 			ptr.Encode(file)
 			return err
 		} else {
+			// The file was truncated above and may hold part of the
+			// object: put the pointer back rather than leave that behind.
+			file.Seek(0, io.SeekStart)
+			file.Truncate(0)
+			ptr.Encode(file)
 			return errors.New(tr.Tr.Get("could not write working directory file: %v", err))
 		}
 	}
